@@ -1728,3 +1728,109 @@ pub mod narrowfx {
         Ok(())
     }
 }
+
+// ---------------------------------------------------------------- R-SIGNATURE
+pub mod sigfx {
+    pub struct St { pub flags: u8, pub next: Vec<(u8, u32)> }
+    impl St {
+        pub fn is_key(&self) -> bool { self.flags & 0x80 != 0 }
+        pub fn is_mark(&self) -> bool { self.flags & 0x40 != 0 }
+    }
+    pub struct OkDawg { pub states: Vec<St> }
+    impl OkDawg {
+        fn compute_state_signature(&self, s: u32) -> Vec<u8> {
+            let st = &self.states[s as usize];
+            let mut v = vec![st.is_key() as u8];
+            for (c, t) in &st.next { v.push(*c); v.extend_from_slice(&t.to_le_bytes()); }
+            v
+        }
+        pub fn minimise(&self) -> usize { (0..self.states.len() as u32).map(|s| self.compute_state_signature(s).len()).sum() }
+        pub fn accepts(&self, s: u32) -> bool { self.states[s as usize].is_key() }
+    }
+}
+pub mod sigfx_bad {
+    pub struct St { pub flags: u8, pub next: Vec<(u8, u32)> }
+    impl St {
+        pub fn is_key(&self) -> bool { self.flags & 0x80 != 0 }
+        pub fn is_mark(&self) -> bool { self.flags & 0x40 != 0 }
+    }
+    pub struct BadDawg { pub states: Vec<St> }
+    impl BadDawg {
+        fn compute_state_signature(&self, s: u32) -> Vec<u8> {
+            let st = &self.states[s as usize];
+            let mut v = vec![st.is_mark() as u8];
+            for (c, t) in &st.next { v.push(*c); v.extend_from_slice(&t.to_le_bytes()); }
+            v
+        }
+        pub fn minimise(&self) -> usize { (0..self.states.len() as u32).map(|s| self.compute_state_signature(s).len()).sum() }
+        pub fn accepts(&self, s: u32) -> bool { self.states[s as usize].is_key() }
+    }
+}
+
+// ---------------------------------------------------------------- R-VARINT.threshold
+pub mod varintfx {
+    pub fn ok_write(out: &mut Vec<u8>, mut value: usize) {
+        while value >= 0x80 {
+            out.push((value & 0x7F) as u8 | 0x80);
+            value >>= 7;
+        }
+        out.push(value as u8);
+    }
+    pub fn ok_write2(out: &mut Vec<u8>, mut value: u64) {
+        loop {
+            let mut byte = (value & 0x7F) as u8;
+            value >>= 7;
+            if value != 0 {
+                byte |= 0x80;
+            }
+            out.push(byte);
+            if value == 0 {
+                break;
+            }
+        }
+    }
+    pub fn bad_write(out: &mut Vec<u8>, mut value: usize) {
+        while value > 0x80 {
+            out.push((value & 0x7F) as u8 | 0x80);
+            value >>= 7;
+        }
+        out.push(value as u8);
+    }
+}
+
+// ---------------------------------------------------------------- R-WIDTHCHECK
+pub mod widthfx {
+    fn store_bits_static(out: &mut Vec<u8>, at: usize, value: u64, bit_width: u8) -> Result<(), String> {
+        let masked = if bit_width < 64 { value & ((1u64 << bit_width) - 1) } else { value };
+        while out.len() < at + 8 { out.push(0); }
+        out[at..at + 8].copy_from_slice(&masked.to_le_bytes());
+        Ok(())
+    }
+    pub fn ok_build(values: &[u64], sw: u8, ow: u8, out: &mut Vec<u8>) -> Result<(), String> {
+        let base = values[0];
+        if sw < 64 && base >= (1u64 << sw) {
+            return Err("base too wide".into());
+        }
+        store_bits_static(out, 0, base, sw)?;
+        for (i, &v) in values.iter().enumerate() {
+            let delta = v - base;
+            if delta >= (1u64 << ow) {
+                return Err("delta too wide".into());
+            }
+            store_bits_static(out, 8 + i * 8, delta as u32 as u64, ow)?;
+        }
+        Ok(())
+    }
+    pub fn bad_build(values: &[u64], sw: u8, ow: u8, out: &mut Vec<u8>) -> Result<(), String> {
+        let base = values[0];
+        store_bits_static(out, 0, base, sw)?;
+        for (i, &v) in values.iter().enumerate() {
+            let delta = v - base;
+            if delta >= (1u64 << ow) {
+                return Err("delta too wide".into());
+            }
+            store_bits_static(out, 8 + i * 8, delta, ow)?;
+        }
+        Ok(())
+    }
+}
